@@ -194,6 +194,62 @@ STRENGTHENED4 = {
  "C20/b": "C20 missed it; see DESIGN.md (length sweep up to the fragmentation buffer size)",
 }
 
+NEEDS5 = {
+ "C01/a": "reset() no longer clears rx_fin_received: first connection closed gracefully by the peer, socket re-used, second connection ends by RST with data lost -> recv reports Finished",
+ "C01/b": "TCP segment whose checksum field is 0x0000 accepted without verification: data segment whose correct checksum is 0 plus a bit flip elsewhere in it",
+ "C02/a": "'everything acknowledged' decided with a non-modular comparison: ISN within one window below 2^31, flight of two segments crossing it, upper segment lost -> timer idle with data in flight",
+ "C02/b": "ARP requests carry the interface's FIRST IPv4 address as sender: two-address host, peer in the second subnet, after the neighbor entry is gone the peer ignores our requests",
+ "C03/a": "DHCP T1/T2 guards compare against the uncapped lease: max_lease cap set, ACK with T1 only and cap < T1 < lease -> Duration underflow panic in poll",
+ "C04/a": "bare FIN beyond RCV.NXT (behind a hole) is processed: FIN in a segment of its own overtakes the last data segment -> ACK covers an unreceived octet, Finished too early",
+ "C05/a": "data segment with a stale ACK field rewinds SND.UNA (same mechanism as a round-3 C01 seed, found independently): payload read at a shifted offset afterwards",
+ "C05/b": "floor for the peer's announced MSS raised from 48 to 64: peer announcing an MSS of 48..63 receives 64-octet segments",
+ "C06/a": "Ieee802154Repr::emit writes the PAN ids before the addresses: pan_id_compression off, short destination -> source PAN never written / panic",
+ "C06/b": "checksum::propagate_carries folds only once: payloads whose word sum lands in a narrow window emit a checksum their own parser rejects",
+ "C07/a": "Ieee802154Frame::check_len only runs its final length check for secured frames: unsecured frame cut 1-3 octets before the end of the addressing fields -> accessor panics",
+ "C07/b": "6LoWPAN fragment header check_len merged for FRAG1/FRAGN: FRAGN cut to 4 octets passes new_checked -> datagram_offset() panics",
+ "C08/a": "process_udp parses with checksum verification off to find the socket and verifies only on acceptance: corrupted datagram to a port without listener is answered with port unreachable",
+ "C08/b": "decompress_udp fills in the checksum of a datagram whose checksum was elided by the sender: checksum-less (and corrupted) UDP/IPv6 datagrams are delivered on 802.15.4",
+ "C09/a": "reassembly slot lookup claims a free slot before checking the rest (needs REASSEMBLY_BUFFER_COUNT >= 2, interleaved datagrams)",
+ "C09/b": "bound address wins over UdpMetadata::local_address: socket bound to (A, port), send with local_address = Some(B) on a multi-address interface leaves from A",
+ "C10/a": "DHCP renewal ACK with a different yiaddr adopted without a Configured event: later renewals are sent from an address the interface does not own",
+ "C10/b": "checksum::combine folds the end-around carry once: UDP/TCP/ICMPv6 checksum off by one when three terms sum to 0x1ffff",
+ "C11/a": "expired reassembly slot keeps its fragment map (key/total_size cleared only): a foreign host's first fragment joins our datagram's last fragment after the timeout",
+ "C11/b": "SLAAC address outlives its valid lifetime when the poll happens exactly at valid_until (is_expired uses <, is_valid uses >)",
+ "C12/a": "reassembly slot keeps total_size across expiry: X delivers its last fragment but never completes, expires; every later datagram of another size is undeliverable",
+ "C12/b": "non-first IPv4 fragments refresh the header checksum on the RX capability (same as a round-2 C10 seed, found independently)",
+ "C13/a": "udp poll_at tests send_queue()==0 (octets) instead of tx_buffer.is_empty(): a queued zero-length datagram reports no deadline but the next poll transmits it",
+ "C13/b": "dns dispatch leaves the query pending when no source address exists: retransmit_at stays in the past -> poll_at <= now after polls that send nothing",
+ "C14/a": "PacketBuffer::peek skips padding via get_allocated(0,2), which returns only the contiguous part: padding in the last metadata slot hides the packet behind it",
+ "C15/a": "remove_contig_at copies within len-1: with N-1 or N ranges pending a front removal duplicates / loses the last range",
+ "C15/b": "iter_data limited to the used prefix with the wrong fallback: with exactly N ranges the highest range is not reported",
+ "C16/a": "our own transmissions refresh the neighbor entry: a silent neighbor we keep sending to is never re-resolved after 60 s",
+ "C16/b": "is_broadcast_v4 ignores the network part: off-link x.y.z.255 is sent to the broadcast MAC instead of via the gateway",
+ "C17/a": "set_keep_alive() replaces any running timer, incl. the TIME-WAIT close timer: TIME-WAIT never ends by itself",
+ "C18/a": "egress_permitted re-arms the neighbor silence each time it runs out: a rebinding client notices lease expiry only on a 1 s grid",
+ "C18/b": "T1 < T2 no longer checked when both options are present: inverted T1/T2 taken over, client rebinds without ever renewing",
+ "C19/a": "unspecified-server check indexes the configured server list instead of the list in use: `.local` query failing over to the second mDNS group with one configured server -> index panic",
+ "C19/b": "compression pointer bound checked against the full buffer instead of the shrinking prefix: two chained pointers with the second target above the first -> slice panic",
+ "C20/a": "6LoWPAN busy guard checked after the new packet was compressed into the fragmentation buffer: dropped oversized reply overwrites the unsent octets of the datagram in flight",
+ "C20/b": "is_link_local widened to fe80::/10 (same as a round-2 C06 seed, found independently)",
+}
+
+STRENGTHENED5 = {
+ "C01/b": "C01 and C08 missed it; see DESIGN.md (base packets whose correct checksum is 0x0000)",
+ "C02/b": "C02 and C16 missed it; see DESIGN.md (two-subnet interface, ARP sender-address clause)",
+ "C03/a": "C03 cannot see it (needs a socket configuration knob); caught by C18's panic isolation",
+ "C06/a": "C06 missed it; see DESIGN.md",
+ "C08/b": "C08 and C20 missed it; see DESIGN.md (hand-built frames with elided NHC UDP checksum)",
+ "C09/b": "C09 missed it; see DESIGN.md (per-datagram local_address on a multi-address interface)",
+ "C10/a": "C10 and C18 missed it; DHCP scenario whose renewal ACK changes address / mask / router, application applying the events",
+ "C11/b": "not seen by any check at first; see DESIGN.md (timed SLAAC part in C11)",
+ "C12/a": "C12 missed it (C03 caught it); see DESIGN.md (expired-then-reused with X's last fragment delivered and a different size)",
+ "C12/b": "C12 missed it (C10 caught it); see DESIGN.md (checksum-capability dimension in the tx sweeps)",
+ "C13/b": "C13 missed it; DNS query added to the IPv4-less interface alphabet",
+ "C16/b": "C16 and C11 missed it; see DESIGN.md (off-link destinations with all-ones host part)",
+ "C17/a": "C17 missed it; set_keep_alive() added to the API alphabet",
+ "C20/a": "C20 and C10 missed it; see DESIGN.md (oversized ingress-triggered reply while fragments are pending)",
+}
+
 def next_letter(prop, used):
     for c in "abcdefghijklmnopqrstuvwxyz":
         if f"{prop}-{c}" not in used:
@@ -207,6 +263,8 @@ def main():
         NEEDS, STRENGTHENED = NEEDS3, STRENGTHENED3
     if rnd == 4:
         NEEDS, STRENGTHENED = NEEDS4, STRENGTHENED4
+    if rnd == 5:
+        NEEDS, STRENGTHENED = NEEDS5, STRENGTHENED5
     used = {os.path.basename(d) for d in glob.glob('/verif/seeded/*')}
     # seeds already stored by this script (origin_path recorded) are updated in place
     have = {}
